@@ -33,6 +33,7 @@ import dataclasses
 import importlib.util
 import inspect
 import itertools
+import logging
 import os
 import random
 import shutil
@@ -45,6 +46,7 @@ import bridge
 import core
 
 warnings.filterwarnings("ignore", category=SyntaxWarning)
+logging.disable(logging.WARNING)      # the library logs "Unknown type for name ..." for every free name of an untyped lambda
 
 TAG = "pipe"
 EXTRACT = "FA/Extract/ExtractPipe.v"
@@ -69,10 +71,16 @@ class Seq:
     element is computed when it is first demanded (First demands one element, Count/len and the final
     comparison demand all) and memoised."""
 
+    eager = False       # True while Python runs a chain directly: plain list semantics, every element computed at once
+    #                     (a lazy element would see the *last* value of an enclosing comprehension variable - Python's
+    #                     late binding of closures, an artefact of laziness that list semantics does not have)
+
     def __init__(self, it=()):
         self._it = iter(it)
         self._buf = []
         self._err = None
+        if Seq.eager:
+            self._fill()
 
     def _fill(self, n=None):
         while n is None or len(self._buf) <= n:
@@ -626,6 +634,13 @@ class ProgGen:
         while name in taken or name in self.caps:
             k += 1
             name = ("g%d" if scope == "g" else "k%d") % k
+        if scope == "l" and self.force_scope is None and r.random() < 0.2:
+            # a closure variable that hides a module global of the same name (and another value)
+            same = [n for n, (sc, kd) in self.caps.items() if sc == "g" and kd == kind and n not in taken
+                    and not any(n in body for _, body, hs in self.p.helpers.values() if hs == "l")]
+            if same:
+                name = r.choice(same)
+                self.p.features.add("closure-hides-global")
         values = {"int": lambda: repr(r.randrange(-3, 7)), "bool": lambda: r.choice(["True", "False"]),
                   "float": lambda: r.choice(["2.5", "0.5", "-1.25"]), "str": lambda: repr(r.choice(["a", "b", "it's"])),
                   "bytes": lambda: r.choice(["b'ab'", "b'a'"]), "complex": lambda: r.choice(["(1+2j)", "3j"]),
@@ -1306,21 +1321,25 @@ def run_implementation(mod, typed: bool, out: Outcome):
 def run_direct(mod, data: List[list]) -> List[List[Tuple[str, Any]]]:
     """build(Direct(Seq(events))) per dataset: Python runs the chain"""
     res = []
-    for events in data:
-        try:
-            outs = mod.build(Direct(Seq(events)))
-        except Exception as ex:  # noqa
-            res.append(("build-err", type(ex).__name__))
-            continue
-        row = []
-        for o in outs:
+    Seq.eager = True
+    try:
+        for events in data:
             try:
-                row.append(("ok", canon(o.value())))
-            except RecursionError:
-                row.append(("err", "RecursionError"))
+                outs = mod.build(Direct(Seq(events)))
             except Exception as ex:  # noqa
-                row.append(("err", type(ex).__name__))
-        res.append(row)
+                res.append(("build-err", type(ex).__name__))
+                continue
+            row = []
+            for o in outs:
+                try:
+                    row.append(("ok", canon(o.value())))
+                except RecursionError:
+                    row.append(("err", "RecursionError"))
+                except Exception as ex:  # noqa
+                    row.append(("err", type(ex).__name__))
+            res.append(row)
+    finally:
+        Seq.eager = False
     return res
 
 
